@@ -303,7 +303,8 @@ theorem write_refused_single_e2e (cfg : Cfg) (w : Cli.World Ext) (sess : Nat) (c
   have hencv : encodeValue (ldx_wparsed 0 (renderLevel ⟨s.name, [i]⟩) info v) info =
       (ldx_wparsed 0 (renderLevel ⟨s.name, [i]⟩) info v, some bytes) :=
     ldx_encodeValue_elem (ldx_wparsed 0 (renderLevel ⟨s.name, [i]⟩) info v) info dim t bytes hnb hseq
-      (by rw [hinfo.typeName]; exact hndw) hinfo.ty hb rfl rfl henc
+      (by rw [hinfo.typeName]; exact hndw) hinfo.ty hb rfl rfl
+      (by show encode t (argOf t v) = _; rw [RT.argOf_of_canon t v hcanon]; exact henc)
   obtain ⟨path, hpath, hpl, hden⟩ := ldr2_requestPath cfg ⟨s.name, [i]⟩ info s.inst hl hinfo.instanceId hinst
   have hpl' : path.length ≤ s.name.length + 19 := by
     have : path.length ≤ s.name.length + 13 + 6 * 1 := hpl
